@@ -127,6 +127,8 @@ def ob_numeric_scalar(op, pot_mod, pot_name, k):
     worst = 0.0
     for tk, rk, tr, order in ((("P", 1), ("DP", 0), False, 3), (("DP", 1), ("P", 1), False, 6), (("DP", 0), ("P", 1), True, 3),
                               # spaces on a SUBSET of their grid (the potential goes through map_to_full_grid, the matrix through local2global)
+                              # an odd total number of trial quadrature nodes (odd number of support elements x odd number of points per element: orders 2 and 5)
+                              (("DP", 0), ("DP", 0, {"support_elements": [0, 1, 3]}), False, 5), (("P", 1), ("DP", 1, {"support_elements": [2]}), False, 2),
                               (("DP", 0), ("DP", 1, {"support_elements": [1, 3]}), False, 3), (("P", 1, {"support_elements": [0, 2, 5], "include_boundary_dofs": True}), ("P", 1, {"support_elements": [0, 2], "include_boundary_dofs": True}), False, 3)):
         err = tested_scalar(op, pot_mod, pot_name, k, tk, rk, order, tr)
         worst = max(worst, err)
